@@ -15,6 +15,7 @@
 #include <csignal>
 #include <ctime>
 #include <fcntl.h>
+#include <sched.h>
 #include <string>
 #include <sys/mman.h>
 #include <sys/stat.h>
@@ -56,6 +57,9 @@ struct Shared {
 };
 
 Slot* g_slot = nullptr; // slot of the current process (worker or isolated child)
+bool g_is_worker = false;  // search worker (statistics are kept in the slot) vs isolated child
+uint64_t* g_hashes = nullptr;
+uint64_t g_hash_cap = 0;
 pbt::Target* g_target = nullptr;
 
 uint64_t now_ms() {
@@ -264,6 +268,7 @@ Outcome run_isolated(const uint8_t* buf, size_t len, bool verbose, double timeou
     o.desc = sl->samples[0];
     if (WIFEXITED(status) && WEXITSTATUS(status) == 0) o.v = V_PASS;
     else if (WIFEXITED(status) && WEXITSTATUS(status) == 11) o.v = V_INCONCLUSIVE;
+    else if (WIFEXITED(status) && WEXITSTATUS(status) == 12) o.v = V_PASS;
     else if (WIFEXITED(status) && WEXITSTATUS(status) == 10) {
         o.v = V_FAIL;
         o.label = sl->label;
@@ -396,6 +401,19 @@ void add_label(Slot* sl, const char* name) {
     }
 }
 
+void add_label(Slot* sl, const char* name);
+//! statistics of a case that passed (or was inconclusive), kept in shared memory
+void record_case(Slot* sl, Verdict v, size_t consumed) {
+    ++sl->evals;
+    if (v == V_INCONCLUSIVE) ++sl->inconclusive;
+    for (const char* l : pbt::ctx().labels) add_label(sl, l);
+    if (pbt::ctx().nontrivial && v == V_PASS) {
+        ++sl->nontrivial;
+        size_t n = std::min<size_t>(consumed, sl->len);
+        if (sl->nhashes < g_hash_cap) g_hashes[sl->nhashes++] = fnv(sl->buf, n, 1469598103934665603ull);
+    }
+}
+
 struct RunCfg {
     std::string target, outdir;
     uint64_t seed = 1, cases = 1000;
@@ -403,12 +421,23 @@ struct RunCfg {
     size_t maxlen = 256;
     double case_timeout = 20, time_limit = 3600;
     int shrink_budget = 3000;
+    bool pin = false;       // pin each worker (and the threads it creates) to one CPU: cheap baton passing
     bool enumerate = false; // case idx = (idx, total) big-endian, for exhaustive sweeps split in chunks
 };
 
 void worker_main(const RunCfg& cfg, int w, uint64_t first_case, Slot* sl, uint64_t* hashes, uint64_t hash_cap,
                  Shared* sh) {
     g_slot = sl;
+    g_is_worker = true;
+    if (cfg.pin) {
+        long ncpu = sysconf(_SC_NPROCESSORS_ONLN);
+        cpu_set_t set;
+        CPU_ZERO(&set);
+        CPU_SET((unsigned)(w % (ncpu > 0 ? ncpu : 1)), &set);
+        sched_setaffinity(0, sizeof set, &set);
+    }
+    g_hashes = hashes;
+    g_hash_cap = hash_cap;
     std::string errf = cfg.outdir + "/w" + std::to_string(w) + ".err";
     int efd = open(errf.c_str(), O_WRONLY | O_CREAT | O_TRUNC, 0644);
     if (efd >= 0) {
@@ -435,18 +464,15 @@ void worker_main(const RunCfg& cfg, int w, uint64_t first_case, Slot* sl, uint64
         lseek(2, 0, SEEK_SET);
         size_t consumed = 0;
         Verdict v = run_inproc(sl->buf, len, false, &label, &msg, &consumed);
-        ++sl->evals;
         if (v == V_FAIL) {
+            ++sl->evals;
             copy_str(sl->label, sizeof sl->label, label);
             copy_str(sl->msg, sizeof sl->msg, msg);
             sl->state = ST_FAILED;
             _exit(10);
         }
-        if (v == V_INCONCLUSIVE) ++sl->inconclusive;
-        for (const char* l : pbt::ctx().labels) add_label(sl, l);
+        record_case(sl, v, consumed);
         if (pbt::ctx().nontrivial && v == V_PASS) {
-            ++sl->nontrivial;
-            if (sl->nhashes < hash_cap) hashes[sl->nhashes++] = fnv(sl->buf, std::min(consumed, len));
             if (sl->nsamples < NSAMPLE && (sl->nsamples == 0 || (idx / cfg.workers) % 37 == 0)) {
                 run_inproc(sl->buf, len, true, nullptr, nullptr);
                 copy_str(sl->samples[sl->nsamples++], SAMPLE_BYTES, pbt::ctx().desc.str());
@@ -497,6 +523,16 @@ int cmd_run(const RunCfg& cfg) {
             --live;
             Slot& sl = slots[w];
             bool clean = WIFEXITED(status) && WEXITSTATUS(status) == 0;
+            if (WIFEXITED(status) && (WEXITSTATUS(status) == 11 || WEXITSTATUS(status) == 12)) {
+                // the case ended itself early (inconclusive / passed): continue with a fresh worker
+                uint64_t next = sl.case_no + W;
+                sl.state = ST_IDLE;
+                if (!sh->stop && next < cfg.cases) {
+                    spawn(w, next);
+                    ++live;
+                }
+                continue;
+            }
             if (!clean) {
                 std::string label, msg;
                 if (WIFEXITED(status) && WEXITSTATUS(status) == 10 && sl.state == ST_FAILED) {
@@ -702,11 +738,29 @@ namespace pbt {
     if (g_slot) {
         copy_str(g_slot->label, sizeof g_slot->label, label);
         copy_str(g_slot->msg, sizeof g_slot->msg, msg);
+        if (!g_is_worker && ctx().verbose) copy_str(g_slot->samples[0], SAMPLE_BYTES, ctx().desc.str());
         g_slot->state = ST_FAILED;
+        fflush(stdout);
         _exit(10);
     }
     fprintf(stderr, "PBT-FATAL %s: %s\n", label, msg.c_str());
     abort();
+}
+[[noreturn]] void abandon_case(const char* why) {
+    ctx().inconclusive = true;
+    if (g_slot && g_is_worker) record_case(g_slot, V_INCONCLUSIVE, 0);
+    if (g_slot && ctx().verbose) {
+        ctx().desc << "[case abandoned: " << why << "]\n";
+        copy_str(g_slot->samples[0], SAMPLE_BYTES, ctx().desc.str());
+    }
+    fflush(stdout);
+    _exit(11);
+}
+[[noreturn]] void finish_case_early() {
+    if (g_slot && g_is_worker) record_case(g_slot, V_PASS, g_slot->len);
+    if (g_slot && !g_is_worker && ctx().verbose) copy_str(g_slot->samples[0], SAMPLE_BYTES, ctx().desc.str());
+    fflush(stdout);
+    _exit(12);
 }
 } // namespace pbt
 
@@ -753,6 +807,7 @@ int main(int argc, char** argv) {
         else if (a == "--outdir") cfg.outdir = val();
         else if (a == "--quiet") quiet = true;
         else if (a == "--enumerate") cfg.enumerate = true;
+        else if (a == "--pin") cfg.pin = true;
         else pos.push_back(a);
     }
     g_target = find_target(cfg.target);
